@@ -1,4 +1,4 @@
 SPECIFICATION Spec
 CONSTANTS
   Emit = TRUE
-INVARIANTS ClauseIffField OrderItemLaw TailLaw WindowLaw
+INVARIANTS ClauseIffField OrderItemLaw TailLaw WindowLaw SetChainLaw
